@@ -125,8 +125,8 @@ def drive_pw_b(rec, part, count):
             continue
         got, why = kernels.run_pointwise(L, tables, kern, m, mask, a, b, r0, alias, off=rng.choice([0, 8, 16, 24]))
         rec.case(("pwB", kern[0], m, alias, mask), nontrivial=alias != "none")
-        if got is None or not np.array_equal(got, np.rint(got)):
-            rec.violation(label + ": " + (why or "non-integer output on integer data"), {"kernel": kern[0], "m": m})
+        if got is None or not np.array_equal(got, np.rint(got)) or not (np.abs(got) < 2.0 ** 30).all():
+            rec.violation(label + ": " + (why or "non-integer or huge output on small integer data"), {"kernel": kern[0], "m": m})
             continue
         events.append({"e": "Pw", "kind": kern[2], "a": a.tolist(), "b": b.tolist(), "r0": r0.tolist(),
                        "r": got.astype(np.int64).tolist(), "_what": label})
